@@ -640,7 +640,9 @@ func init() {
 		Rule: "Sessions of the real generic/network driver against a causal CLI device (exec/configuration modes honoured). Enumerated: every position pattern over " +
 			"{no failure string, failure string in force, decoy} for command lists of length <=4 x 13 driver-list/operation-list combinations " +
 			"(none/one/three x absent/empty/disjoint/overlapping/subset) x every API (SendCommand, SendCommands, SendCommandsFromFile, SendConfigs, SendConfig, SendConfigsFromFile; " +
-			"generic and network) x stop-on-failed on/off; thorough adds lengths 5-6 (API rotated) and more random lists of length up to 14 with failure lists of up to 6 strings. " +
+			"generic and network) x stop-on-failed on/off; thorough does the same for length 5, adds every pattern of length 6 x 13 combinations x stop on/off with the API rotated, " +
+			"and both tiers add random sessions (quick 60, thorough 3000; 6 operations each) with longer lists (quick 5-12, thorough 7-14 commands) and random failure lists of up to 6 strings " +
+			"(occasionally containing the host name, which occurs in the prompt only and counts iff the prompt is not stripped). " +
 			"Decoys: unlisted string, driver-level string while an operation-level list overrides it, string of another operation's list, string only in the echoed command, " +
 			"case variant, string broken by a newline, proper prefix. Placement first/middle/last line x start/mid/end/whole line, optionally broken by an escape sequence or CR, several per output. " +
 			"Non-trivial = a session in which at least one returned member failed per the reference (a failure string in force is present in some output). Distinct = distinct descriptor hash.",
